@@ -1,5 +1,5 @@
 import TlxVerif.Proofs.C14Digest
-import TlxVerif.Model.C14SipHash
+import TlxVerif.Proofs.C14SipHash
 /-!
 # C14 — digests and SipHash equal their standards for every message and every chunking
 
@@ -114,7 +114,28 @@ theorem padZeros_smallest (len : Nat) :
   unfold Spec.padZeros
   refine ⟨⟨by omega, fun k hk => by omega⟩, ⟨by omega, fun k hk => by omega⟩⟩
 
+/-! ## SipHash -/
+
+/-- **siphash_plain** returns SipHash-2-4 (Aumasson–Bernstein) for every 16-byte key and every
+    message; message and key are byte strings, so every alignment is covered by the model
+    (the real code's alignment behaviour is exercised by the harness: offsets 0..15). -/
+theorem siphash_plain_correct (key msg : Bytes) :
+    Model.Sip.siphashPlain key msg = Spec.SipHash.hash key msg := siphashPlain_eq_spec key msg
+
+/-- **portable = vectorised**, and both = SipHash-2-4.  `siphash()` dispatches to one of the
+    two at compile time (`__SSE2__`), so the dispatching overloads are covered either way. -/
+theorem siphash_sse2_correct (key msg : Bytes) :
+    Model.Sip.siphashSSE2 key msg = Model.Sip.siphashPlain key msg ∧
+    Model.Sip.siphashSSE2 key msg = Spec.SipHash.hash key msg :=
+  ⟨siphashSSE2_eq_plain key msg, siphashSSE2_eq_spec key msg⟩
+
 /-! ### non-vacuity: concrete evaluations of model and specification -/
+
+example : Model.Sip.siphashSSE2 Gen.sipDefaultKey ((List.range 15).map (BitVec.ofNat 8)) = 0xa129ca6149be45e5#64 := by
+  decide +kernel
+
+example : Spec.SipHash.hash Gen.sipDefaultKey [] = 0x726fdb47dd0e0e31#64 := by decide +kernel
+
 
 example : Model.hexLower (digestOfChunks Model.MD5.params (List.replicate 64 0xAA#8)
     [[0x61#8], [], [0x62#8, 0x63#8]]) = "900150983cd24fb0d6963f7d28e17f72" := by decide +kernel
